@@ -23,10 +23,10 @@ for seed, leaf, nm in LEAVES:
                               stubs=["object free bodies cut on the goto binary (memory reclamation is outside this harness)"],
                               tiers={"quick": {}, "thorough": {}}, bounds="one leaf of seed S%d; its four sets, the dropped cpuset/nodeset (optional second set) and the 5 flags symbolic" % seed))
 RE_ENC = ["hwloc_topology_restrict", "restrict_object_by_cpuset", "restrict_object_by_nodeset", "unlink_and_free_single_object", "hwloc__reorder_children", "hwloc__reconnect", "hwloc_connect_children", "hwloc_connect_levels", "hwloc_filter_levels_keep_structure", "hwloc_propagate_symmetric_subtree", "propagate_total_memory", "hwloc_free_unlinked_object"]
-for seed, nsl, nsl_t in ((2, 14, 26), (1, 7, 13), (4, 7, 13)):
+for seed, nsl, nsl_t in ((2, 14, 26), (1, 7, 13), (4, 7, 13), (11, 7, 13), (13, 7, 13)):
     for k in range(nsl_t):
         tiers = {"thorough": {"defines": {"SEED": seed, "NSLICE": nsl_t, "SLICE": k, "NFL": 4}}}
         if k < nsl: tiers["quick"] = {"defines": {"SEED": seed, "NSLICE": nsl, "SLICE": k, "NFL": 2}}
         HARNESSES.append(dict(COMMON, name="restrict_enum_s%d_%02d" % (seed, k), entry="h_restrict_enum", encoded=RE_ENC, unwind=20, tiers=tiers, cost=90, object_bits=13,
-                              bounds="the WHOLE real restrict on seed S%d (S4 here: loaded WITHOUT INCLUDE_DISALLOWED, so that PU1 and NUMA1 only remain in the complete_ sets): every non-empty subset of the PUs {0,1,2,5} and two sets reaching outside, by cpuset with {no flag, REMOVE_CPULESS|ADAPT_MISC|ADAPT_IO} (thorough: + each alone), and 4 node sets by nodeset with {BYNODESET, +REMOVE_MEMLESS+ADAPT} (thorough: + REMOVE_MEMLESS alone); concrete runs selected by symbolic inputs, dealt to slices; every C08 clause + the independent C01 checker" % seed))
+                              bounds="the WHOLE real restrict on seed S%d (S4 here: loaded WITHOUT INCLUDE_DISALLOWED, so that PU1 and NUMA1 only remain in the complete_ sets; S11: S1 with Misc objects below a package, its NUMA node and a PU; S13: two Groups of two Cores with memory and Misc children: a restrict that leaves one Core per Group merges the Group level away): every non-empty subset of the PUs {0,1,2,5} and two sets reaching outside, by cpuset with {no flag, REMOVE_CPULESS|ADAPT_MISC|ADAPT_IO} (thorough: + each alone), and 4 node sets by nodeset with {BYNODESET, +REMOVE_MEMLESS+ADAPT} (thorough: + REMOVE_MEMLESS alone); concrete runs selected by symbolic inputs, dealt to slices; every C08 clause + the independent C01 checker" % seed))
 OUTSIDE = ["topologies other than the seeds; restrict sets and flag words other than the enumerated ones on whole trees (the leaf step and the front end are decided for ALL sets and flags)", "level merging after restrict (the seeds have no mergeable level)", "distances / memattrs / cpukinds hooks (C13, C14, C15)"]
